@@ -211,6 +211,13 @@ func (h *hub) open(k int) {
 	}
 }
 
+// holdAll: no session's traffic is let through (until open is called).
+func (h *hub) holdAll() {
+	h.mu.Lock()
+	h.cur = -1
+	h.mu.Unlock()
+}
+
 func (h *hub) current() int {
 	h.mu.Lock()
 	defer h.mu.Unlock()
@@ -345,6 +352,10 @@ type execWorld struct {
 	subCh   chan struct{}
 	hub     *hub
 	note    []string
+	// prior phase (Case.Prior): no barrier, no scripted executed-status changes; priorSub = the digest
+	// request itself fails (Substrate: there is no RPC behind Pallet.ProposalsHash that could)
+	prior    bool
+	priorSub bool
 }
 
 func (w *execWorld) addNote(s string) {
@@ -442,6 +453,24 @@ func sameProps(a, b []Prop) bool {
 
 func (w *execWorld) hashed(ps []*transfer.TransferProposal, real func([]*transfer.TransferProposal) ([]byte, error)) ([]byte, error) {
 	val := valueOf(ps)
+	w.mu.Lock()
+	prior, priorSub := w.prior, w.priorSub
+	w.mu.Unlock()
+	if prior {
+		if priorSub {
+			return nil, errScriptedHash
+		}
+		w.hashMu.Lock()
+		d, err := real(ps)
+		w.hashMu.Unlock()
+		if err == nil {
+			// (not on the repository's code: the RPC the digest needs is down)
+			w.mu.Lock()
+			w.hashes = append(w.hashes, hashRec{props: val, digest: append([]byte{}, d...)})
+			w.mu.Unlock()
+		}
+		return d, err
+	}
 	for _, f := range w.failHash {
 		if sameProps(f, val) {
 			// fails at once, without ever blocking: the batch goroutine ends and its pool worker is
@@ -547,7 +576,12 @@ func (b *evmWorldBridge) ProposalsHash(ps []*transfer.TransferProposal) ([]byte,
 }
 
 func newEvmBridge(chain int64, contract string, on func([]Prop, []byte, uint64, error)) *evmbridge.BridgeContract {
-	return evmbridge.NewBridgeContract(&fakeEvmClient{id: big.NewInt(chain)}, ethCommon.BytesToAddress(unhex(contract)), &recTransactor{on: on})
+	return newEvmBridgeCtl(chain, contract, nil, on)
+}
+
+// ctl (may be nil) scripts the chain-id RPC of the client behind the contract object.
+func newEvmBridgeCtl(chain int64, contract string, ctl *rpcCtl, on func([]Prop, []byte, uint64, error)) *evmbridge.BridgeContract {
+	return evmbridge.NewBridgeContract(&fakeEvmClient{id: big.NewInt(chain), ctl: ctl}, ethCommon.BytesToAddress(unhex(contract)), &recTransactor{on: on})
 }
 
 // ---- Substrate: the real Pallet.ProposalsHash; the extrinsic is recorded at the BridgePallet interface ---
@@ -687,13 +721,9 @@ func runExec(c Case) Obs {
 	if w.expected == 0 {
 		close(w.allIn)
 	}
-	if c.Sched == "p1" {
-		old := runtime.GOMAXPROCS(1)
-		var once sync.Once
-		w.onAllIn = func() { once.Do(func() { runtime.GOMAXPROCS(old) }) }
-		defer w.onAllIn()
-	}
-
+	// the three relayers: every object is built once and lives for the whole case
+	ctl := &rpcCtl{}
+	executes := make([]func([]*proposal.Proposal) error, relayers)
 	for k := 0; k < relayers; k++ {
 		h := newFakeHost(fixPeers[k], fixPeers)
 		ep := w.hub.join(fixPeers[k])
@@ -702,21 +732,51 @@ func runExec(c Case) Obs {
 		coord.CoordinatorTimeout = 20 * time.Minute
 		coord.InitiatePeriod = time.Hour
 		fetcher := keyshare.NewECDSAKeyshareStore(keysharePath(k))
-		ps := execProposals(c)
-		var execute func([]*proposal.Proposal) error
 		switch c.Via {
 		case "evm":
-			bc := newEvmBridge(c.Chain, c.Contract, func(props []Prop, sig []byte, gas uint64, err error) {
+			bc := newEvmBridgeCtl(c.Chain, c.Contract, ctl, func(props []Prop, sig []byte, gas uint64, err error) {
 				if err != nil {
 					w.addNote("call data: " + err.Error())
 				}
 				w.submitted(props, sig)
 			})
-			execute = evmexec.NewExecutor(h, ep, coord, &evmWorldBridge{BridgeContract: bc, w: w}, fetcher, &sync.RWMutex{}, c.Cap, c.Tg).Execute
+			executes[k] = evmexec.NewExecutor(h, ep, coord, &evmWorldBridge{BridgeContract: bc, w: w}, fetcher, &sync.RWMutex{}, c.Cap, c.Tg).Execute
 		case "substrate":
 			pl := pallet.NewPallet(&subclient.SubstrateClient{ChainID: big.NewInt(c.Chain)})
-			execute = subexec.NewExecutor(h, ep, coord, &subWorldPallet{p: pl, w: w}, fetcher, nil, &sync.RWMutex{}).Execute
+			executes[k] = subexec.NewExecutor(h, ep, coord, &subWorldPallet{p: pl, w: w}, fetcher, nil, &sync.RWMutex{}).Execute
 		}
+	}
+
+	// prior phase: the same executors get the same delivery while no digest can be had
+	if c.Prior != "" {
+		if !runPrior(c, w, ctl, executes) {
+			w.mu.Lock()
+			defer w.mu.Unlock()
+			o := Obs{Crashed: w.crashed, Note: strings.Join(append(w.note, w.info...), "; ")}
+			// every value that came back from the bridge without an error while the RPC was down: the executors hand
+			// what the bridge returns to signing.NewSigning under the session id of that batch
+			for _, h := range w.hashes {
+				sid := "?"
+				for i, b := range batches {
+					if sameProps(b, h.props) {
+						sid = sids[i]
+					}
+				}
+				o.Sessions = append(o.Sessions, SessObs{Sid: sid + " (endpoint down)", Batch: h.props, Signed: hex.EncodeToString(h.digest), Submitted: h.props})
+			}
+			return o
+		}
+	}
+
+	if c.Sched == "p1" {
+		old := runtime.GOMAXPROCS(1)
+		var once sync.Once
+		w.onAllIn = func() { once.Do(func() { runtime.GOMAXPROCS(old) }) }
+		defer w.onAllIn()
+	}
+
+	for k := 0; k < relayers; k++ {
+		execute, ps := executes[k], execProposals(c)
 		go func() {
 			// conc re-raises the panic of a batch goroutine from Wait, i.e. from Execute
 			defer func() { w.executeEnded(recover()) }()
@@ -830,6 +890,75 @@ func runExec(c Case) Obs {
 	o.Crashed = w.crashed
 	o.Note = strings.Join(append(w.note, w.info...), "; ")
 	return o
+}
+
+// runPrior: every relayer's Execute is called with the delivery while the digest cannot be had (EVM: the
+// chain-id RPC of the real BridgeContract fails as c.Prior says; Substrate: the digest request fails).  On
+// the repository's code every batch goroutine ends with that error at once and Execute returns it; no
+// session comes into being.  All session traffic is held back meanwhile, so an executor that goes on to
+// sign regardless cannot submit anything here.  false = an Execute did not come back (the case ends
+// incomplete); a Go panic of an Execute is recorded like in the main phase.
+func runPrior(c Case, w *execWorld, ctl *rpcCtl, executes []func([]*proposal.Proposal) error) bool {
+	w.mu.Lock()
+	w.prior, w.priorSub = true, c.Via == "substrate"
+	w.mu.Unlock()
+	if c.Via == "evm" {
+		ctl.set(c.Prior)
+	}
+	w.hub.holdAll()
+	type res struct {
+		err error
+		pnc interface{}
+	}
+	done := make(chan res, len(executes))
+	for k := range executes {
+		execute, ps := executes[k], execProposals(c)
+		go func() {
+			var r res
+			defer func() {
+				r.pnc = recover()
+				done <- r
+			}()
+			r.err = execute(ps)
+		}()
+	}
+	ok := true
+	start := time.Now()
+	tick := time.NewTicker(50 * time.Millisecond)
+	defer tick.Stop()
+	for n := 0; n < len(executes) && ok; {
+		select {
+		case r := <-done:
+			n++
+			if r.pnc != nil {
+				w.mu.Lock()
+				w.crashed = true
+				w.note = append(w.note, "Executor.Execute panicked while the digest could not be had: "+firstLine(fmt.Sprint(r.pnc)))
+				w.mu.Unlock()
+			} else if r.err == nil && w.expected > 0 {
+				w.mu.Lock()
+				w.info = append(w.info, "Execute returned no error although the digest could not be had")
+				w.mu.Unlock()
+			}
+		case <-tick.C:
+			// an Execute that is still running 2 s after a digest came back although the RPC is down has gone on to
+			// sign it (its session waits for the held traffic); otherwise the wait is 15 s
+			w.mu.Lock()
+			got := len(w.hashes) > 0
+			w.mu.Unlock()
+			if el := time.Since(start); el > 15*time.Second || (got && el > 2*time.Second) {
+				w.addNote("Execute did not return while the digest could not be had")
+				ok = false
+			}
+		}
+	}
+	ctl.set("")
+	w.mu.Lock()
+	w.prior, w.priorSub = false, false
+	crashed := w.crashed
+	w.mu.Unlock()
+	w.hub.open(0)
+	return ok && !crashed
 }
 
 // ---- submission without a session: the real executeBatch / executeProposal on a batch of which some
